@@ -16,6 +16,11 @@ each reference, so dropping the increment at one site breaks exactly the theorem
   selectRef       SDAI_Select::STEPread, entity member written as #n: ReadEntityRef( in, err, ",)", instances, addFileId )
   complexPart     STEPcomplex::STEPread -> stepc->SDAI_Application_instance::STEPread( id, addFileId, ... )
   refAdd          ReadEntityRef: `id += addFileId;` before the look-up
+  genSelectRef    \
+  genSelectNested  } the STEPread_content that exp2cxx EMITS for every select type (src/exp2cxx/selects.c, the format strings of
+  genSelectAggr   /  the "Read part 21" block): entity member -> ReadEntityRef( ..., instances, addFileId ); member that is itself
+                     a select -> _m.STEPread (in, &_error, instances, utype, addFileId, currSch); aggregate member ->
+                     _m STEPread (in, &_error, <elem type>, instances, addFileId, currSch)
 """
 import os, re
 
@@ -149,10 +154,40 @@ def extract(repo):
     f["refAdd"] = bool(m)
     if not re.search(r"in\s*>>\s*id\s*;", rb):
         raise ValueError("ReadEntityRef changed")
+    # the select classes exp2cxx emits
+    gen = open(os.path.join(repo, "src/exp2cxx/selects.c")).read()
+    a = gen.find("/*  Read part 21   */")
+    b = gen.find("void TYPEselect_lib_StrToVal", a)
+    if a < 0 or b < 0:
+        raise ValueError("exp2cxx: emitter of STEPread_content not found")
+    blk = gen[a:b]
+    if not re.search(r"const char \*utype, int addFileId, const char \*currSch\)", blk):
+        raise ValueError("exp2cxx: emitted STEPread_content signature changed")
+
+    def case_text(label_re):
+        m = re.search(label_re + r"(.*?)break\s*;", blk, re.S)
+        if not m:
+            raise ValueError(f"exp2cxx: case {label_re} of the STEPread_content emitter not found")
+        return m.group(1)
+    ent = case_text(r"case entity_:")
+    m = re.search(r"ReadEntityRef\(in, &_error, \\\",\)\\\", instances, (\w+)\)", ent)
+    if not m:
+        raise ValueError("exp2cxx: emitted entity member read changed")
+    f["genSelectRef"] = m.group(1) == "addFileId"
+    selc = case_text(r"case select_:")
+    m = re.search(r"STEPread \(in, &_error, instances, utype, (\w+), currSch\)", selc)
+    if not m:
+        raise ValueError("exp2cxx: emitted nested select read changed")
+    f["genSelectNested"] = m.group(1) == "addFileId"
+    agg = case_text(r"case list_:")
+    m = re.search(r"STEPread \(in, &_error, %s -> AggrElemTypeDescriptor \(\),\\n\"\s*\"\s*instances, (\w+), currSch\)", agg)
+    if not m:
+        raise ValueError("exp2cxx: emitted aggregate member read changed")
+    f["genSelectAggr"] = m.group(1) == "addFileId"
     order = ["instAttr", "attrRef", "attrAggr", "attrSelect", "redef", "aggrEntityElem", "aggrSelectElem", "selectContent",
-             "selectRef", "complexPart", "refAdd"]
+             "selectRef", "complexPart", "refAdd", "genSelectRef", "genSelectNested", "genSelectAggr"]
     L = ["-- GENERATED by tools/extract.d/threading.py from STEPattribute.cc, sdaiApplication_instance.cc, STEPaggrEntity.cc,",
-         "-- STEPaggrSelect.cc, sdaiSelect.cc, STEPcomplex.cc (src/clstepcore)",
+         "-- STEPaggrSelect.cc, sdaiSelect.cc, STEPcomplex.cc (src/clstepcore) and the emitter src/exp2cxx/selects.c",
          "namespace StepModel.Generated", "",
          "/-- at which call sites the file id increment is handed on (see tools/extract.d/threading.py for the sites) -/",
          "structure Threading where"] + [f"  {k} : Bool" for k in order] + ["  deriving DecidableEq, Repr", "",
